@@ -4,6 +4,7 @@ import AGV.Core.Types
 import AGV.Core.VSchema
 import AGV.Model.Validate
 import AGV.Model.ValidateDynSchema
+import AGV.Model.ValidateStaticSchemas
 import AGV.Spec.Validate
 import AGV.Gen.Rules
 
@@ -27,8 +28,13 @@ def inputDef? : Sexp → Option InputDef
   | _ => none
 
 def vschema? : Sexp → Option VSchema
+  | .list [.atom "vschema", sc, .list (.atom "dirs" :: ds), .list (.atom "inputs" :: is), .list (.atom "subflag" :: fs)] => do
+    some { base := ← Decode.schema? sc, dirs := ← ds.mapM dirDef?, inputs := ← is.mapM inputDef?,
+           subFlag := (← fs.mapM asStr?).map String.ofList }
+  -- case lines written before the dump carried the `is_subscription` flags (corpus, witnesses of the
+  -- listed findings): the flags are taken to be those of a well-formed registry
   | .list [.atom "vschema", sc, .list (.atom "dirs" :: ds), .list (.atom "inputs" :: is)] => do
-    some { base := ← Decode.schema? sc, dirs := ← ds.mapM dirDef?, inputs := ← is.mapM inputDef? }
+    some (withRootFlag { base := ← Decode.schema? sc, dirs := ← ds.mapM dirDef?, inputs := ← is.mapM inputDef? })
   | _ => none
 
 structure Case where
@@ -190,17 +196,7 @@ def mustBeCaught (m : String) : Bool :=
   m.startsWith "Unknown fragment" || m.startsWith "Unknown field" || m.startsWith "Cannot query field"
   || (m.startsWith "Variable " && m.endsWith " is not defined.") || m.startsWith "Unknown directive"
 
-def judge (known : List String) (case impl : String) : JudgeOut :=
-  -- the witness of a finding another property owns (shared through `also`): replayed there, not here
-  if impl.trimAscii.toString = "(foreign)" then .ok else
-  match (parse case).bind case?, (parse impl).bind impl? with
-  | some c, some i =>
-    -- stream `dynamic`: the registry the case carries (dumped from the REAL registry of the schema
-    -- built with async_graphql::dynamic) must be the one `c09_dynamic_schema_wf` /
-    -- `c09_dynamic_corrected` are about; otherwise those theorems speak of a registry the library
-    -- no longer builds (rerun tools/c09_dyn_schema.py)
-    if c.dynamic && !Model.ValidateDynSchema.vschemaEq c.S Model.ValidateDynSchema.dynSchema then
-      .tie "registry dump of the dynamic schema differs from Model/ValidateDynSchema.lean" "" else
+def judgeCase (known : List String) (c : Case) (i : Impl) : JudgeOut :=
     let viol := Spec.Validate.violations {} c.S c.doc c.vars c.opName
     let specStr := if viol.isEmpty then "valid" else "invalid: " ++ "; ".intercalate viol
     let dK := defectsOf known
@@ -236,6 +232,45 @@ def judge (known : List String) (case impl : String) : JudgeOut :=
             match cand.find? (fun p => outcomeStr (run (p.2 dK)) ≠ mStr) with
             | some p => .known p.1 mStr specStr
             | none => .viol mStr ("deviation from the specification that no listed finding explains; " ++ specStr)
+
+/-- a registry whose `is_subscription` flags do not mark exactly the subscription root, on a case where
+    that makes a difference and the implementation behaves as the model computes from the dumped flags -/
+def flagDeviation (known : List String) (c : Case) (i : Impl) : Option JudgeOut :=
+  if flagWF c.S then none else
+  let dK := defectsOf known
+  let mDumped := outcomeStr (checkRules c.S dK c.doc c.vars c.opName)
+  let mRight := outcomeStr (checkRules (withRootFlag c.S) dK c.doc c.vars c.opName)
+  if mDumped ≠ mRight && implStr i = some mDumped then
+    let v := Spec.Validate.violations {} c.S c.doc c.vars c.opName
+    some (.viol mDumped ("the registry flags [" ++ ", ".intercalate c.S.subFlag ++ "] as is_subscription but subscription_type is "
+      ++ (c.S.base.subscription.getD "none") ++ "; with the flag on the subscription root the validator answers " ++ mRight
+      ++ "; reference validator: " ++ (if v.isEmpty then "valid" else "invalid: " ++ "; ".intercalate v)))
+  else none
+
+def judge (known : List String) (case impl : String) : JudgeOut :=
+  -- the witness of a finding another property owns (shared through `also`): replayed there, not here
+  if impl.trimAscii.toString = "(foreign)" then .ok else
+  match (parse case).bind case?, (parse impl).bind impl? with
+  | some c, some i =>
+    let r := judgeCase known c i
+    if r.verdict = "VIOL" then r else
+    -- THE `is_subscription` FLAGS.  The model goes by the flags the registry carries (as
+    -- `visit_selection` does), the reference validator by the operation type.  A registry whose flags
+    -- do not mark exactly the type `subscription_type` names is outside `SchemaWF` (the theorems say
+    -- nothing about it), and no listed finding is about flags: when the implementation behaves as the
+    -- model computes from the dumped flags, and differently from the model over the flags a
+    -- well-formed registry has, the wrong flag IS the deviation — not to be attributed to a finding.
+    match flagDeviation known c i with
+    | some v => v
+    | none =>
+    -- the registry the case carries (dumped from the REAL registry) must be one the theorems
+    -- `c09_dynamic_schema_wf` / `c09_static_schemas_wf` are about; otherwise those theorems speak of a
+    -- registry the library no longer builds (rerun tools/c09_dyn_schema.py)
+    if c.dynamic && !Model.ValidateDynSchema.vschemaEq c.S Model.ValidateDynSchema.dynSchema then
+      .tie "registry dump of the dynamic schema differs from Model/ValidateDynSchema.lean" ""
+    else if !c.dynamic && !Model.ValidateStaticSchemas.isStaticVariant c.S then
+      .tie "registry dump of the static schema is none of the variants of Model/ValidateStaticSchemas.lean" ""
+    else r
   | _, _ => .viol "undecodable case or output" ""
 
 end AGV.Drive.C09
